@@ -78,7 +78,7 @@ fn build(rng: &mut Rng, r: &Rose) -> (Tree, &'static str, u64) {
             let (a, _) = st.exec(&format!("real.build\tgrown\t{}\t{seed}", r.canon()));
             if a == "ok" { (st.tree, "grown", seed) } else { (build_api(r), "api", 0) }
         }
-        0 => (build_api(r), "api", 0),
+        0 => if rng.chance(1, 2) { (build_api(r), "api", 0) } else { (build_bottom_up(r, &mut Rng::new(seed)), "bottomup", seed) },
         1 => (build_api_bfs(r), "bfs", 0),
         2 => (build_with_tombstones(r, &mut Rng::new(seed)), "tomb", seed),
         _ => match Tree::from_newick(&r.newick()) {
@@ -206,6 +206,68 @@ fn do_job(job: Job, driver: &str, rep: &mut Report) {
                                 }
                             }
                         }
+                    }
+                }
+            }
+        }
+        // ---- second write of the SAME object after an in-place edit of a payload field (name / comment) made through each of
+        // the public mutable accessors: the writer must describe the tree as it is now, whatever it wrote before ----
+        if rng.chance(1, 3) {
+            let mut t3 = tree.clone();
+            let _ = t3.to_newick();
+            let _ = t3.to_formatted_newick(FORMATS[3]);
+            let slots = slots_of(&t3);
+            let named: Vec<usize> = (0..slots.len()).filter(|&i| !slots[i].deleted && slots[i].name.as_ref().map_or(false, |n| slots.iter().filter(|x| !x.deleted && x.name.as_ref() == Some(n)).count() == 1)).collect();
+            let live: Vec<usize> = (0..slots.len()).filter(|&i| !slots[i].deleted).collect();
+            let via = rng.below(3);
+            let mut edited = false;
+            let mut how_edit = String::new();
+            match via {
+                0 if !named.is_empty() => {
+                    let i = *rng.pick(&named);
+                    let old = slots[i].name.clone().unwrap();
+                    if let Some(n) = t3.get_by_name_mut(&old) {
+                        n.name = Some(format!("{old}x"));
+                        edited = true;
+                        how_edit = format!("get_by_name_mut({old:?}).name = {:?}", format!("{old}x"));
+                    }
+                }
+                1 if !live.is_empty() => {
+                    let i = *rng.pick(&live);
+                    if let Ok(n) = t3.get_mut(&i) {
+                        n.comment = Some("edited".into());
+                        edited = true;
+                        how_edit = format!("get_mut({i}).comment = \"edited\"");
+                    }
+                }
+                _ if !live.is_empty() => {
+                    let i = *rng.pick(&live);
+                    if let Ok(n) = t3.get_mut(&i) {
+                        n.set_name(format!("n{i}"));
+                        edited = true;
+                        how_edit = format!("get_mut({i}).set_name(\"n{i}\")");
+                    }
+                }
+                _ => {}
+            }
+            if edited {
+                rep.count("second-write-after-in-place-edit");
+                let arena2 = enc_arena_lex(&slots_of(&t3));
+                let t4 = t3.clone();
+                let w = guarded(move || t4.to_newick());
+                let ans = match &w {
+                    Err(_) => "panic".to_string(),
+                    Ok(Err(_)) => "err".to_string(),
+                    Ok(Ok(s)) => format!("ok {}", hex(s)),
+                };
+                reqs.push(format!("nw.write\t0\t{arena2}"));
+                expect.push(ans);
+                let case = format!("real.build\t{how}\t{canon}\t{bseed}\nnw.format\t0\n(in-place edit: {how_edit})\nnw.format\t0");
+                if let Ok(Ok(w1)) = w {
+                    let want = rose_of_tree(&t3).map(|x| x.canon()).unwrap_or_default();
+                    let got = Tree::from_newick(&w1).ok().and_then(|p| rose_of_tree(&p)).map(|x| x.canon()).unwrap_or_default();
+                    if want != got {
+                        rep.oracle("roundtrip", "second-write-after-edit:tree-differs", &case, &format!("text {w1:?}: expected {want} got {got}"));
                     }
                 }
             }
